@@ -167,6 +167,9 @@ class BufferCmd(SoundCmd):
         elif sound.bits_per_sample == 16:
             # 16 bit per sample
             # Convert from big endian word to little endian word
+            if idx + length * 2 > len(fdata):
+                # Do not allocate from a declared length the data can not back
+                raise ValueError("Sample area exceeds the sound data!")
             data = bytearray(length * 2)
 
             for i in range(0, length*2, 2):
